@@ -594,6 +594,37 @@ fn gen_history(rng: &mut Rng, visual: bool, nbatches: usize, many: bool) -> Vec<
     hist
 }
 
+/// Two consecutive batches over `nscenes` scenes with 1-2 well separated detections each: many jobs per voting
+/// thread, so that a bound on a voting thread's job queue (the model's queues are unbounded) would block predict
+/// while that thread waits on the bounded(1) result channel.
+fn gen_large(rng: &mut Rng, visual: bool, nscenes: usize) -> Vec<Batch> {
+    let mut hist = vec![];
+    let two: Vec<bool> = (0..nscenes).map(|_| rng.chance(1, 3)).collect();
+    let off: Vec<(f32, f32)> = (0..nscenes).map(|_| (rng.dyadic(0, 64, 2), rng.dyadic(0, 64, 2))).collect();
+    for f in 0..2 {
+        let mut b: Batch = vec![];
+        for si in 0..nscenes {
+            let mut ds = vec![];
+            for j in 0..(if two[si] { 2 } else { 1 }) {
+                ds.push(Det {
+                    x: 100.0 * j as f32 + off[si].0 + 2.0 * f as f32,
+                    y: off[si].1 + 1.0 * f as f32,
+                    aspect: 0.625,
+                    h: 32.0,
+                    conf: 1.0,
+                    custom: None,
+                    q: if visual { Some(0.9) } else { None },
+                    feat: if visual { Some(vec![4.0 * j as f32 + rng.dyadic(0, 8, 5), rng.dyadic(0, 8, 5)]) } else { None },
+                });
+            }
+            b.push((1 + si as u64, ds));
+        }
+        rng.shuffle(&mut b);
+        hist.push(b);
+    }
+    hist
+}
+
 fn gen(seed: u64, n: usize, tier: &str) {
     let mut rng = Rng::new(seed);
     let thorough = tier == "thorough";
@@ -615,6 +646,22 @@ fn gen(seed: u64, n: usize, tier: &str) {
         let kind = if i % 2 == 1 { "visual" } else { "sort" };
         let hist = gen_history(&mut rng, kind == "visual", 3, true);
         run_case(kind, 1 + (i % 4), 4, "B", 1 + rng.below(1 << 40), &hist);
+    }
+    // large batches (33..80 scenes) on one or two voting threads, both retrieval modes, both trackers
+    let sizes: Vec<usize> = if thorough { vec![33, 34, 35, 40, 48, 64, 65, 72, 80] } else { vec![33, 34, 35, 40, 64, 65, 80] };
+    for (i, sz) in sizes.iter().enumerate() {
+        for kind in ["sort", "visual"] {
+            for v in [1usize, 2] {
+                // one voting thread receives sz (v = 1) or sz/2 (v = 2) jobs; with v = 2 use twice the scenes for the
+                // sizes around plausible queue depths so that each thread still gets that many
+                let nsc = if v == 2 && *sz <= 40 { 2 * sz } else { *sz };
+                let hist = gen_large(&mut rng, kind == "visual", nsc);
+                let modes: Vec<&str> = if thorough || (i + v) % 2 == 0 { vec!["A", "B"] } else { vec!["A"] };
+                for mode in modes {
+                    run_case(kind, 1 + (i % 2), v, mode, 1 + rng.below(1 << 40), &hist);
+                }
+            }
+        }
     }
     // probes of the monitor
     for (i, site) in ["vote_job_begin", "vote_store_write", "vote_send"].iter().enumerate() {
